@@ -71,6 +71,18 @@ CHECKS = {
         text="For ~24 query shapes (maps, filters, inner/outer joins of tracked x tracked and tracked x public relations in both orders, per-unit reduces, unions, LIMIT) x privacy-unit definitions (own column, 1- and 2-step foreign-key paths, hashed) x strategies, the solver searches every database of <= 2 (thorough: 3) rows per table and every unit for an output row with a NULL id/weight or for a difference between the unit's rows on D and the output on D|u.",
         note="Trusted: lib/symrel.py semantics; independent ownership computation (referred ids are primary keys); SQLite-confirmed reports only. Known findings: NULL id/weight on outer-join padded rows; LIMIT over tracked rows.",
         design="3 C05"),
+    "C01": dict(
+        level="translation_validation", engine="S (SymRel) + SQLite replay",
+        technique="SMT (non-linear real arithmetic, cvc5/z3): the pre-noise relation of each noised column - located structurally in the relation returned by the real rewrite_with_differential_privacy - is executed symbolically on neighbouring databases D / D minus one unit; the L2 change over groups is compared with sigma / recorded multiplier for all measure values under exhaustively enumerated key layouts",
+        text="For each aggregation query x privacy-unit definition x DpParameters, every noise-adding projection X + sigma*noise is located and the solver decides, for every assignment of rows to units and groups (enumerated layouts, <= 2/3 rows per table) and all measure values and NULLs (symbolic), whether removing one unit can move the pre-noise column by more than sigma/m in L2 norm over the groups. Results computed on protected rows without any noise are checked against a bound of 0.",
+        note="Trusted: lib/symrel.py semantics over reals; ownership through declared foreign-key paths; clip bound = sigma / recorded multiplier. Every reported violation is reproduced by SQLite on D and D'. A tightness twin (half the bound must be refutable) guards against a vacuous encoding.",
+        design="3 C01"),
+    "C09": dict(
+        level="translation_validation", engine="S (SymRel) + SQLite replay",
+        technique="SMT (non-linear real arithmetic): the DP-rewritten relation with every Box-Muller term replaced by 0 and the original relation are executed symbolically on the same database (enumerated key layouts, symbolic in-range measures); group sets and COUNT/SUM/AVG are compared; SQLite replay with RANDOM() overridden",
+        text="For each aggregation query (ungrouped or grouped by public keys) the neutralised DP relation and the original relation are compared on every database of <= 2/3 rows per table whose measures lie in the declared ranges and whose units stay within the multiplicity the clip bound allows: original groups must be present with equal COUNT/SUM/AVG (a NULL aggregate of an empty group may become 0) and extra groups must be empty.",
+        note="Trusted: structural neutralisation of the noise term; lib/symrel.py semantics over reals; SQLite-confirmed reports only (tolerance 1e-6). VAR/STD not yet encoded.",
+        design="3 C09"),
 }
 
 NOT_APPLICABLE = {
@@ -79,11 +91,9 @@ NOT_APPLICABLE = {
 }
 
 NOT_YET = {
-    "C01": "engine S (SymRel) for this property not built yet",
     "C03": "not built yet",
     "C04": "not built yet",
     "C08": "not built yet (stretch goal; two SQL front ends)",
-    "C09": "not built yet",
 }
 
 
